@@ -54,6 +54,7 @@ type c04Work struct {
 	simp    *syntax.File // after one Simplify pass
 	orig    *syntax.File
 	done0   [2]bool
+	clause  string // which clause failed: roundtrip | interp | bash ("" for the others)
 	// printed texts per configuration: of the original tree, of the simplified tree
 	p0, p1   [2]string
 	ok0, ok1 [2]bool
@@ -62,7 +63,7 @@ type c04Work struct {
 
 func c04(c *vc.Ctx) {
 	thorough := !c.Quick()
-	c.Rule = "G_simp: prelude (x=3 y=4 n=-2 i=1 j=2 arr=(5 6 7), associative m with integer values, s e p w strings, $1..$3) + ONE snippet + epilogue printing status and all variables; snippets = every expansion of: arithmetic expressions (atoms $x ${y} x 2 $n ${arr[$i]} arr[$i] $((x+1)) ($x) $1 [thorough: +14 more incl. ${arr[i]} ${m[$i]} \"$x\" ${x:-5} $x$y]; single atoms, 11 unary/paren forms, atom op atom over 15 operators, compact forms, ternaries, two-operator trees with all 4 parenthesisations over a smaller atom/operator set) in up to 21 contexts ($(( )), (( )), $[ ], ${s:E}, ${s:E:E}, ${arr[E]}, arr[E]=, ${m[E]}, m[E]=, let, nested $(( $(( )) )), arr[E] inside arithmetic, c-style for init/cond, if (( )), array element index, ${@:E}); 58 nested-subshell/command-substitution wrappers x 14 bodies (negation, background, redirection, pipeline, comment, here-doc, function-body and process-substitution variants); [[ ]] expressions: operands (quoted/unquoted params, empty, with space, glob, array elements, cmd-subst, escaped literal) under -n -z -e ! and 11 binary operators, each in 11 paren/negation wrappers, plus &&/|| combinations; double-quoted and $\"...\" literals = all strings of <=3 (quick) / <=4 (thorough; <=5 in the two plain contexts) tokens over {\\\\ \\$ \\` \\\" ' \\n a n $ space x} in up to 18 word contexts; hand-written edge shapes per rewrite; each program as bash and as posix (own prelude) with all clauses, as mksh/zsh/bats for clauses 1-2; plus the syntax test corpus (all 5 variants, clauses 1-2) and the interpreter test corpus (clauses 1-3, external commands disabled). Clauses: (1) Simplify's result == (dump with positions changed), for the first pass and for repeated passes up to a fixpoint; (2) for the printer configurations default (shfmt -s) and Minify (shfmt -mn): if the original tree prints and reparses to itself, so does the simplified tree; (3) interpreter stdout+status of the simplified tree == of the original tree; (4) bash stdout+status of the printed simplified tree == of the original source (skipped when printing the unsimplified tree already changes bash's behaviour, or bash cannot parse the original). distinct = distinct simplified trees that differ from their original"
+	c.Rule = "G_simp: program = fixed prelude (x=3 y=4 n=-2 i=1 j=2 arr=(5 6 7), associative m with integer values, strings s e p w, $1..$3) + ONE snippet + fixed epilogue printing the snippet's status and every variable and returning that status. Bounds are written quick | thorough. Snippets = (a) arithmetic expressions E over atoms {$x ${y} 2 ($x) arr[$i]} | {$x ${y} x 2 $n arr[$i] $((x+1)) ($x) ${arr[$i]} ${m[$i]}}: every atom; 11 unary/paren forms of it (- ! ~ + ++ -- prefix, ++ -- postfix, (a), ((a))); a op b over {+ - * < , =} | {+ - * / % ** < == && || , = += << &}; compact a+b forms and ternaries over 4 | 6 atoms; every two-operator tree in all 4 parenthesisations over 2 atoms x 2 ops | 3 atoms x 4 ops. Every E in $(( E )), (( E )), ${s:E}, ${arr[E]}, arr[E]=9, ${m[E]}; E with at most one binary operator also in ${s:$i:E}, ${s:(E):($j)}, m[E]=9, $(( $(( E )) * $x )), c-style for init and cond (side-effect-free E) | additionally let, arr[E] inside arithmetic, $((E)) compact, $[ E ], ${s:E:$j}, \"${arr[@]:E:2}\", r=$(( (E) )), if (( (E) )), arr+=([E]=8); (b) 57 nested-subshell / command-substitution wrappers (negation, background+wait, redirections, pipeline, comments, here-doc, function body, process substitution) x 2 | 14 bodies; (c) [[ ]]: 5 | 10 operands (quoted/unquoted params, empty, with space, glob chars, array elements, escaped literal) alone, under -n -z -e !, and joined by 6 | 11 binary operators, each in 6 | 11 paren/negation wrappers, plus 2 | 9 shapes of && / || combinations of 16 simple tests; (d) double-quoted literals over the tokens {\\\\ \\$ \\` \\\" ' \\n a n $ space x}: 1 token in 18 word contexts (plain, $\"\", inside a word, twice, after another, assignment, ${u:-..} unquoted / inside double quotes / in a here-document, case, [[ ]], associative key, command substitution, array, $\" inside a quoted ${..}, arithmetic, redirect target, for list), 2 tokens in 10 | 18, 3 tokens in none | the first 9, 4 tokens over {\\\\ \\$ \\\" ' \\n a $} in none | the two plain contexts; (e) ~270 hand-written edge shapes of each rewrite. Each program is taken as bash (all clauses), posix (own prelude; clauses 1-3) and zsh (bare snippet; clauses 1-2; hand-written and subshell ones also mksh and bats); plus every string of the syntax test tables in the variants bash posix zsh | all 5 (clauses 1-2) and of the interpreter test table (bash: clauses 1-3 with external commands disabled; posix: 1-2). Clauses: (1) Simplify's result == (dump with positions changed), for the first pass and each repeated pass until a fixpoint (must exist within 8 passes); (2) printed with the default (shfmt -s) and the Minify (shfmt -mn) printer the simplified tree reparses to itself whenever the unsimplified tree does; (3) interpreter stdout+status of the simplified tree == those of the original tree; (4) bash stdout+status of the printed simplified tree (both printers) == those of the original source, unless printing the UNSIMPLIFIED tree already changes them or bash cannot parse the original. distinct = distinct simplified trees that differ from their original"
 	c.Assumptions = []string{
 		"bash 5.2.15 is the oracle for clause (4); the texts of a batch are evaluated with eval one after the other in the main shell of one bash process (fork is very expensive on the machine), stderr discarded, stdin empty, with the variables/functions a program can leave behind unset in between; a text that terminates the shell is re-run alone in a subshell",
 		"variables referenced in arithmetic hold plain integers (decimal, one negative) by construction of the prelude",
@@ -139,13 +140,14 @@ func c04RunBatch(c *vc.Ctx, ts []c04Case) []*vc.Fail {
 			continue
 		}
 		if w.fail == nil && w.needBash {
-			w.fail = c04JudgeBash(c, w, bres)
-		}
-		if w.fail == nil && w.simp != nil {
-			w.fail = c04MorePasses(c, w)
+			if w.fail = c04JudgeBash(c, w, bres); w.fail != nil {
+				w.clause = "bash"
+			}
 		}
 		if w.fail != nil {
-			c04Classify(w)
+			c04Classify(w) // before the tree is simplified further
+		} else if w.simp != nil {
+			w.fail = c04MorePasses(c, w)
 		}
 		out[i] = w.fail
 	}
@@ -193,6 +195,7 @@ func c04Go(c *vc.Ctx, ws *synt.Workspace, t c04Case) *c04Work {
 				c.Count("skipped_original_does_not_roundtrip", 1)
 				continue
 			}
+			w.clause = "roundtrip"
 			w.fail = &vc.Fail{Key: w.key + " roundtrip " + cfg.String(), Msg: fmt.Sprintf("[%s] %s: simplified tree printed with %s gives %s which %s", t.Variant, shortSrc(c04Snippet(t)), cfg, shortSrc(c04Body(w.p1[k])), why)}
 			return w
 		}
@@ -225,6 +228,7 @@ func c04Go(c *vc.Ctx, ws *synt.Workspace, t c04Case) *c04Work {
 		fmt.Printf("[%s] simplified: %q\n  interp orig: %d %q %s\n  interp simp: %d %q %s\n", t.Variant, c04Body(w.p1[0]), r0.Status, r0.Stdout, r0.Fatal, r1.Status, r1.Stdout, r1.Fatal)
 	}
 	if r0.Stdout != r1.Stdout || r0.Status != r1.Status || r0.Panicked != r1.Panicked || (r0.Fatal == "") != (r1.Fatal == "") {
+		w.clause = "interp"
 		w.fail = &vc.Fail{Key: w.key + " interp", Msg: fmt.Sprintf("[%s] %s: interpreter gives status=%d stdout=%q, after Simplify (%s) status=%d stdout=%q", t.Variant, shortSrc(c04Snippet(t)), r0.Status, c04Trim(r0.Stdout), shortSrc(c04Body(w.p1[0])), r1.Status, c04Trim(r1.Stdout)),
 			Detail: map[string]any{"orig": r0, "simplified": r1, "printed": w.p1[0]}}
 		return w
@@ -320,9 +324,6 @@ func c04Trim(s string) string {
 	return s
 }
 
-// c04Classify assigns the narrow classes of known defect families.
-func c04Classify(w *c04Work) {
-}
 
 // c04RT prints tree with cfg and reports whether the output reparses to the
 // same tree (C01's notion: dump without positions, documented cosmetic
